@@ -279,8 +279,10 @@ def replay_file(prop, path, quiet=False):
 
 
 def fresh_replay(prop, path):
+    # same pinned PYTHONHASHSEED as the batch (./check exports 0): dask's own graph optimisation iterates over sets, so the task
+    # graph of the same lazy object -- and with it the schedule -- can differ between hash seeds (seen in the self-test: extra,
+    # unculled blocks under another seed).  A replay is a function of (choices, code, pinned hash seed).
     env = dict(os.environ)
-    env["PYTHONHASHSEED"] = "1"
     p = subprocess.run([sys.executable, os.path.join(VERIF, "simkit", "cli.py"), prop, "--replay", path],
                        capture_output=True, text=True, env=env, timeout=600)
     for line in p.stdout.splitlines():
